@@ -27,7 +27,7 @@ def _slice(chk: Check, items: List[str], n: int, salt: str) -> List[str]:
 
 
 def pairwise_history(chk: Check) -> None:
-    n = int(os.environ.get("SIM_PAIR_N", "61"))  # prime: every stride d generates a Hamiltonian cycle
+    n = int(os.environ.get("SIM_PAIR_N", "43"))  # prime: every stride d generates a Hamiltonian cycle
     base = [c for c in chk.ctx.contracts if chk.ctx.info[c]["lines"] <= 200] + chk.ctx.bad_inputs
     items = _slice(chk, base, n, "pairs")
     n = len(items)
